@@ -18,6 +18,20 @@ CLS = {"2": CVSS2, "3": CVSS3, "4": CVSS4}
 VER = {CVSS2: "2", CVSS3: "3", CVSS4: "4"}
 
 
+class Presented(type("")):
+    """a str subclass whose *presentation* hooks differ from its text (like a member of `class Known(str, Enum)`): the library may
+    use every str operation on its input, but what it reports must be about the text that was supplied"""
+
+    def __str__(self):
+        return "<presented>"
+
+    def __repr__(self):
+        return "<presented repr>"
+
+    def __format__(self, spec):
+        return "<presented format>"
+
+
 def construct(ver, s, rh=False, with_json=True, reparse=True, order=None):
     try:
         obj = CLS[ver].from_rh_vector(s) if rh else CLS[ver](s)
@@ -61,7 +75,18 @@ def main():
         if op in ("construct", "fromrh"):
             # two of three events observe the object in a seeded random accessor order
             order = None if n % 3 == 0 else (job.get("seed", 0) * 1000003 + n)
-            _, ev["out"] = construct(it["ver"], unesc(it["s"]), rh=(op == "fromrh"), with_json=it.get("json", True), order=order)
+            arg = unesc(it["s"])
+            if n % 5 == 4 and it.get("json", True):        # every fifth JSON-bearing event supplies the vector as a str subclass instance
+                arg = Presented(arg)
+            if n % 4 == 3:          # every fourth event is computed in a freshly started worker thread
+                import threading
+                box = []
+                th = threading.Thread(target=lambda: box.append(construct(it["ver"], arg, rh=(op == "fromrh"), with_json=it.get("json", True), order=order)))
+                th.start()
+                th.join()
+                _, ev["out"] = box[0]
+            else:
+                _, ev["out"] = construct(it["ver"], arg, rh=(op == "fromrh"), with_json=it.get("json", True), order=order)
             if op == "fromrh":
                 raw = unesc(it["s"])
                 if "/" in raw:
